@@ -50,6 +50,7 @@ func init() {
 		Gen: func(seed uint64, tier string) *Case { return &Case{Seq: genSibling(seed, tier)} }})
 	// properties decided on both sequential and concurrent scenarios
 	props["C06"].Gen = seqOrConc("C06", 0.4, func(seed uint64, tier string) *SeqScenario { return genSeqCache("C06", seed, tier, CacheKinds) })
+	props["C09"].Gen = seqOrConc("C09", 0.88, func(seed uint64, tier string) *SeqScenario { return genSeqCache("C09", seed, tier, CacheKinds) })
 	props["C07"].Gen = seqOrConc("C07", 0.3, func(seed uint64, tier string) *SeqScenario {
 		if simrtRNG(seed ^ 0x77).Bool(0.5) {
 			return genSeqCache("C07", seed, tier, CacheKinds)
